@@ -67,10 +67,6 @@ def insertSorted (x : Nat) : List Nat → List Nat
   | [] => [x]
   | y :: ys => if x < y then x :: y :: ys else if x = y then y :: ys else y :: insertSorted x ys
 
-def insertAfter (a x : Nat) : List Nat → List Nat
-  | [] => []
-  | y :: ys => if y = a then y :: x :: ys else y :: insertAfter a x ys
-
 /-- the "obvious effect" of an in-contract operation on the abstract forest -/
 def expectedForest (before : List (Nat × Name × List Nat)) (op : List String) (ret : Nat) : Option (List (Nat × Name × List Nat)) :=
   let onKids (p : Nat) (f : List Nat → List Nat) := before.map fun (i, nm, ks) => if i = p then (i, nm, f ks) else (i, nm, ks)
